@@ -1,6 +1,6 @@
 use crate::ast::{BinaryOperator, CallClause, Clause, Expression, Literal, Query};
 use crate::error::{Error, Result};
-use crate::executor::{Plan, Row, Value, execute_plan, execute_write};
+use crate::executor::{Plan, Row, Value, execute_plan};
 use nervusdb_api::GraphSnapshot;
 use std::collections::{BTreeMap, BTreeSet, HashSet, VecDeque};
 use std::sync::{Arc, Mutex};
